@@ -242,7 +242,9 @@ pub fn check(html: &str, w: usize, cx: &mut Cx) {
     // never a continuation.  If the whole document renders identically at a width at which
     // nothing can wrap, no piece may carry Preformat(true).  (Which pieces of a wrapped line
     // are continuations is C12's subject.)
-    if d.has_elem("pre") && lines.iter().any(|l| l.iter().any(|p| matches!(p, Piece::Str(_, t) if t.iter().any(|x| x == "Preformat(true)")))) {
+    // (not for tables: a column's width comes from a size estimate, so a <pre> in a cell can
+    // wrap at every overall width)
+    if d.has_elem("pre") && !d.has_elem("table") && lines.iter().any(|l| l.iter().any(|p| matches!(p, Piece::Str(_, t) if t.iter().any(|x| x == "Preformat(true)")))) {
         let wide = cx.render(html.as_bytes(), 400, &cfg);
         cx.state(1);
         if wide.ok().map(|s| s.as_str()) == Some(lines_text(lines).as_str()) {
@@ -330,6 +332,11 @@ fn contexts(r: Vec<N>) -> Vec<Vec<N>> {
         // nested table inside a coloured cell (e-mail style markup)
         vec![e("table", vec![e("tr", vec![ea("td", &col, vec![e("table", vec![e("tr", vec![ea("td", &bg, r.clone()), e("td", vec![t("z")])])]), t("y")]), e("td", vec![t("w")])])]), e("p", vec![t("v")])],
         vec![e("strong", vec![e("ul", vec![ea("li", &col, r.clone()), e("li", vec![t("z")])]), t("y")])],
+        // an annotating inline element whose last child is a block (the parser keeps a <pre>
+        // inside an inline element in a list item, a cell or a div), followed by more text
+        vec![e("ul", vec![e("li", vec![e("em", vec![t("z"), e("pre", r.clone())]), t(" y")]), e("li", vec![t("w")])])],
+        vec![e("div", vec![ea("a", &[("href", "/9")], vec![e("strong", vec![t("z"), e("pre", vec![t("v")])])]), t("y "), e("code", r.clone())])],
+        vec![e("table", vec![e("tr", vec![e("td", vec![e("del", vec![e("pre", r.clone())]), t("y")]), e("td", vec![t("w")])])]), e("p", vec![t("v")])],
         // a coloured row without any content (spacer row) before the row holding the run
         vec![e("table", vec![ea("tr", &col, vec![e("td", vec![]), e("td", vec![t(" ")])]), e("tr", vec![e("td", r.clone()), e("td", vec![t("z")])]), ea("tr", &bg, vec![e("td", vec![])]), e("tr", vec![e("td", vec![t("y")])])]), e("p", vec![t("w")])],
         // pre with several lines: a long first line, the next line starting with the inline run
@@ -358,8 +365,8 @@ impl Scope for S {
     }
     fn info(&self) -> Info {
         Info {
-            rule: "inline nestings (every chain of wrappers up to the stated depth over 13 wrappers incl. links, images, sup, inline-style / class / color= colours) in two run shapes x 25 block contexts (p, li, quote, heading, table cell, dt, dd, pre, div, coloured div/table/tr/td/ul/li/ol/blockquote, list inside em, pre in quote in list, nested table, styled cells inside annotated contexts followed by siblings) x every width (so every token is also seen wrapped); expected vectors from the oracle DOM; non-trivial = some piece carries >= 2 annotations or the output has >= 2 lines".into(),
-            bounds: json!({"chains": self.chains.len(), "max_chain_depth": self.chains.iter().map(|c| c.len()).max(), "wrappers": INL.iter().map(|w| format!("{}{:?}", w.0, w.1)).collect::<Vec<_>>(), "contexts": 25, "widths": format!("1..={}", self.maxw)}),
+            rule: "inline nestings (every chain of wrappers up to the stated depth over 13 wrappers incl. links, images, sup, inline-style / class / color= colours) in two run shapes x 28 block contexts (p, li, quote, heading, table cell, dt, dd, pre, div, coloured div/table/tr/td/ul/li/ol/blockquote, list inside em, pre in quote in list, nested table, styled cells inside annotated contexts followed by siblings) x every width (so every token is also seen wrapped); expected vectors from the oracle DOM; non-trivial = some piece carries >= 2 annotations or the output has >= 2 lines".into(),
+            bounds: json!({"chains": self.chains.len(), "max_chain_depth": self.chains.iter().map(|c| c.len()).max(), "wrappers": INL.iter().map(|w| format!("{}{:?}", w.0, w.1)).collect::<Vec<_>>(), "contexts": 28, "widths": format!("1..={}", self.maxw)}),
             assumptions: vec!["RichAnnotation::Default (pushed for <sup>) is treated as neutral".into(), "Preformat's continuation flag is C12's subject and is ignored here".into(), "colours come from single uncontested declarations (the cascade is C19's subject)".into()],
         }
     }
